@@ -100,14 +100,14 @@ end
 mutual
 /-- the fragment: every literal is well kinded (no mixed array literal `[1, "a"]` — those are the `Any`
 escape of known finding C19-any-escape), an array access has at least one index (grammar), and the only
-functions called are the ones `TE.eval` implements (`len`, `range`, `enumerate` / `enum`) -/
+functions called are the ones `TE.eval` implements (`len`, `range`, `enumerate` / `enum`, `zip`) -/
 def TE.wf : TE α → Bool
   | .lit v => v.agrees v.kind
   | .var _ => true
   | .un _ e => e.wf
   | .bin _ a b => a.wf && b.wf
   | .access _ idx => !idx.isEmpty && wfList idx
-  | .call f args => (f == "len" || f == "range" || f == "enumerate" || f == "enum") && wfList args
+  | .call f args => (f == "len" || f == "range" || f == "enumerate" || f == "enum" || f == "zip") && wfList args
 def wfList : List (TE α) → Bool
   | [] => true
   | e :: es => e.wf && wfList es
@@ -244,6 +244,21 @@ def enumerateT : List (TVal α) → Nat → List (TVal α)
   | [], _ => []
   | v :: vs, i => .tuple [v, .scalar (.number (Arith.ofInt i))] :: enumerateT vs (i + 1)
 
+/-- the heads and the tails of the rows, `none` as soon as one row is exhausted -/
+def headsTails : List (List (TVal α)) → Option (List (TVal α) × List (List (TVal α)))
+  | [] => some ([], [])
+  | [] :: _ => none
+  | (x :: xs) :: rest => match headsTails rest with
+    | some (hs, ts) => some (x :: hs, xs :: ts)
+    | none => none
+
+/-- `ZipArrays::call`: tuples of the i-th elements, as many as the shortest operand has (`fuel` = a bound on it) -/
+def zipT : Nat → List (List (TVal α)) → List (TVal α)
+  | 0, _ => []
+  | n + 1, rows => match headsTails rows with
+    | some (hs, ts) => .tuple hs :: zipT n ts
+    | none => []
+
 def liftOp (r : Except OpErr (Prim α)) (wrap : OpErr → TErr) : Except TErr (TVal α) :=
   match r with
   | .ok p => .ok (.scalar p)
@@ -281,6 +296,10 @@ def TE.eval (r : VEnv α) : TE α → Except TErr (TVal α)
       | .arr e vs => .ok (.arr (.tuple [e, .pint]) (enumerateT vs 0))
       | _ => .error .wrongArgument
     | "enumerate", _ | "enum", _ => .error .wrongNumberOfArguments
+    | "zip", [] => .ok (.arr .any [])
+    | "zip", a :: rest => do
+      let rows ← evalArrs r (a :: rest)
+      .ok (.arr (.tuple (rows.map Prod.fst)) (zipT ((rows.map (fun p => p.2.length)).foldl min (rows.headD (.any, [])).2.length) (rows.map Prod.snd)))
     | "range", [a, b, c] => do
       let lo ← intOf (← a.eval r)
       let hi ← intOf (← b.eval r)
@@ -294,6 +313,15 @@ def TE.eval (r : VEnv α) : TE α → Except TErr (TVal α)
       | _ => .error .wrongArgument
     | "range", _ => .error .wrongNumberOfArguments
     | _, _ => .error .nonExistentFunction
+/-- every operand `as_iterator`: element kind tag and elements -/
+def evalArrs (r : VEnv α) : List (TE α) → Except TErr (List (Kind × List (TVal α)))
+  | [] => .ok []
+  | e :: es => do
+    match (← e.eval r) with
+    | .arr k vs => do
+      let rest ← evalArrs r es
+      pure ((k, vs) :: rest)
+    | _ => .error .wrongArgument
 def evalIdx (r : VEnv α) : List (TE α) → Except TErr (List Nat)
   | [] => .ok []
   | e :: es => do
